@@ -32,8 +32,15 @@ theorem delete_range_exact (m : Store) (sc : SScript) (start end_ : Bytes) (res 
     (h : deleteRange m sc start end_ = some (res, tr)) :
     res = m.eraseRange start (toBound end_) ∧
     ∀ k, res.get k = if inRange start (toBound end_) k then none else m.get k := by
-  have := deleteRangeLoop_spec end_ sc start m [] res tr h
-  exact ⟨this, fun k => by rw [this, OMap.get_eraseRange]⟩
+  unfold deleteRange deleteRangeRun at h
+  simp only at h
+  split at h
+  · rename_i hok
+    simp only [Option.some.injEq, Prod.mk.injEq] at h
+    have := deleteRangeLoop_spec end_ sc start m [] hok
+    rw [h.1] at this
+    exact ⟨this, fun k => by rw [this, OMap.get_eraseRange]⟩
+  · simp at h
 
 /-- Checksum equals the fold (xor of crc64, count, byte count) over the pairs of `[start, end)` of the whole map. -/
 theorem checksum_eq_fold (m : Store) (hs : m.Sorted) (sc : SScript) (start end_ : Bytes) (c : Checksum) (tr : STrace)
@@ -50,11 +57,12 @@ theorem batch_get_positional (m : Store) (sc : BScript) (keys : List Bytes) (val
   split at h
   · simp at h
   · rename_i s sc' hs
+    unfold batchGetRun at hs
     simp only [Option.some.injEq, Prod.mk.injEq] at h
     have sp := sendBatch_spec PGet_eff (fun _ => True) mkKeyBatches id execGet mkKeyBatches_spec
       (fun _ _ _ _ => trivial) (fun _ _ => Iff.rfl) execGet_eff _ _ _ _ _ _ hs (fun _ _ => trivial)
     obtain ⟨hst, hp⟩ := sp
-    simp only [view] at hst hp
+    simp only [view, BState.init] at hst hp
     rw [keysOf_mapKey] at hp
     rw [← h.1]
     apply List.map_congr_left
@@ -85,6 +93,7 @@ theorem batch_put_last_wins (m : Store) (sc : BScript) (items : List Item) (m' :
   split at h
   · simp at h
   · rename_i s sc' hs
+    unfold batchPutRun at hs
     simp only [Option.some.injEq, Prod.mk.injEq] at h
     let w : Bytes → Option Bytes := (items.foldl ins OMap.empty).get
     have sp := sendBatch_spec (PPut_eff w) (fun it => w it.1 = some it.2) mkPutBatches lastWins execPut mkPutBatches_spec
@@ -99,7 +108,7 @@ theorem batch_put_last_wins (m : Store) (sc : BScript) (items : List Item) (m' :
         rw [h1]; exact h2)
     intro k
     have := sp k
-    simp only [view] at this
+    simp only [view, BState.init] at this
     rw [← h.1, this]
     exact (foldl_ins_split items m k).symm
 
@@ -111,6 +120,7 @@ theorem batch_delete_exact (m : Store) (sc : BScript) (keys : List Bytes) (m' : 
   split at h
   · simp at h
   · rename_i s sc' hs
+    unfold batchDeleteRun at hs
     simp only [Option.some.injEq, Prod.mk.injEq] at h
     have sp := sendBatch_spec PDel_eff (fun _ => True) mkKeyBatches id execDelete mkKeyBatches_spec
       (fun _ _ _ _ => trivial) (fun _ _ => Iff.rfl)
@@ -122,7 +132,7 @@ theorem batch_delete_exact (m : Store) (sc : BScript) (keys : List Bytes) (m' : 
       _ _ _ _ _ _ hs (fun _ _ => trivial)
     intro k
     have := sp k
-    simp only [view, keysOf_mapKey] at this
+    simp only [view, BState.init, keysOf_mapKey] at this
     rw [← h.1, this]
 
 /-- Get / Put / Delete / CompareAndSwap: whatever layout the request is finally served under, and after any
@@ -168,6 +178,143 @@ theorem cas_eq (m : Store) (sc : SScript) (k : Bytes) (prev : Option Bytes) (new
       obtain ⟨h1, h2, h3⟩ := h
       simp [← h1, ← h2, ← h3, hp]
 
+/-! ### the non-atomic calls: what holds in EVERY store they go through, completed or not
+
+BatchPut, BatchDelete and DeleteRange are not atomic (the property text: "while regions split, merge or change leader
+between or during calls"; rawkv documents no atomicity for them).  In the model every served region request is one
+atomic step — the linearisation point of the keys it carries.  `(…Run …).1` is the state reached when the script ends,
+whether the call completed (`some`) or ended with an error (`none`: back-off budget used up); `.stores` lists the
+store after every served batch.  The statements hold for EVERY script, so also for every truncation of a script, i.e.
+for every intermediate moment of a call. -/
+
+/-- BatchPut: in every store the call goes through, each key has its old value or — if it is a requested key — the
+    value BatchPut finally gives it (the last one in request order); no other value is ever visible, no other key touched -/
+theorem batch_put_every_store_old_or_new (m : Store) (sc : BScript) (items : List Item) :
+    ∀ st ∈ (batchPutRun m sc items).1.stores,
+      OldOrNew m (keysOf items) (items.foldl ins OMap.empty).get st := by
+  let w : Bytes → Option Bytes := (items.foldl ins OMap.empty).get
+  have := sendBatch_inv (IAll (OldOrNew m (keysOf items) w)) (fun it => w it.1 = some it.2 ∧ it.1 ∈ keysOf items)
+    mkPutBatches lastWins execPut mkPutBatches_spec
+    (fun b hb => lastWins_valid_keys w _ b hb)
+    (fun s R b hI hb => put_served_inv m _ w s R b hI hb)
+    (fun s b hI => IAll_failed _ s b hI)
+    (sc.length + 1) (BState.init m) items sc
+    (by intro st hst; simp only [BState.stores, BState.init, List.mem_cons, List.not_mem_nil, or_false] at hst
+        rw [hst]; intro k; exact Or.inl rfl)
+    (fun it' hit' => by
+      obtain ⟨it, hit, h1, h2⟩ := (mem_lastWins items it').mp hit'
+      refine ⟨by show (items.foldl ins OMap.empty).get it'.1 = some it'.2; rw [h1]; exact h2, ?_⟩
+      rw [h1]; exact List.mem_map.mpr ⟨it, hit, rfl⟩)
+  exact this
+
+/-- BatchDelete: in every store the call goes through, each key is untouched or is a requested key that is gone -/
+theorem batch_delete_every_store_old_or_deleted (m : Store) (sc : BScript) (keys : List Bytes) :
+    ∀ st ∈ (batchDeleteRun m sc keys).1.stores, OldOrNew m keys (fun _ => none) st := by
+  have := sendBatch_inv (IAll (OldOrNew m keys (fun _ => none))) (fun it => it.1 ∈ keys)
+    mkKeyBatches id execDelete mkKeyBatches_spec
+    (fun _ hb => hb)
+    (fun s R b hI hb => delete_served_inv m _ s R b hI hb)
+    (fun s b hI => IAll_failed _ s b hI)
+    (sc.length + 1) (BState.init m) (keys.map fun k => (k, [])) sc
+    (by intro st hst; simp only [BState.stores, BState.init, List.mem_cons, List.not_mem_nil, or_false] at hst
+        rw [hst]; intro k; exact Or.inl rfl)
+    (fun it hit => by
+      obtain ⟨k, hk, rfl⟩ := List.mem_map.mp hit
+      exact hk)
+  exact this
+
+/-- BatchGet never writes -/
+theorem batch_get_never_writes (m : Store) (sc : BScript) (keys : List Bytes) :
+    ∀ st ∈ (batchGetRun m sc keys).1.stores, st = m := by
+  have := sendBatch_inv (IAll (fun st => st = m)) (fun _ => True)
+    mkKeyBatches id execGet mkKeyBatches_spec
+    (fun _ _ _ _ => trivial)
+    (fun s R b hI _ => get_served_inv m s R b hI)
+    (fun s b hI => IAll_failed _ s b hI)
+    (sc.length + 1) (BState.init m) (keys.map fun k => (k, [])) sc
+    (by intro st hst; simp only [BState.stores, BState.init, List.mem_cons, List.not_mem_nil, or_false] at hst
+        exact hst)
+    (fun _ _ => trivial)
+  exact this
+
+/-- DeleteRange, for every script (completed or not): each key is untouched, or lies in `[start, end)` and is gone -/
+theorem delete_range_every_store_old_or_deleted (m : Store) (sc : SScript) (start end_ k : Bytes) :
+    (deleteRangeRun m sc start end_).1.get k = m.get k ∨
+    (inRange start (toBound end_) k = true ∧ (deleteRangeRun m sc start end_).1.get k = none) :=
+  deleteRangeLoop_any end_ sc start m [] k
+
+/-! ### total correctness of the batch calls when no batch meets a region error, for every grouping layout `G`
+(the cache's view: arbitrary, it only has to be what the batches were built with), and of the single-key calls
+as soon as the script contains one served attempt.  A call that does not complete is covered by the two
+sections above (result: error; store: old-or-new per key). -/
+
+theorem batch_get_total_no_region_error (m : Store) (G : Layout) (keys : List Bytes) :
+    ∃ tr, batchGet m [⟨G, List.replicate (mkKeyBatches G (keys.map fun k => ((k, []) : Item))).length true⟩] keys =
+      some (keys.map m.get, tr) := by
+  have hok := runBatches_all_ok (sendBatch mkKeyBatches id execGet 1) execGet
+    (mkKeyBatches G (keys.map fun k => ((k, []) : Item))) (BState.init m) []
+  have hrun : ∃ s, batchGetRun m [⟨G, List.replicate (mkKeyBatches G (keys.map fun k => ((k, []) : Item))).length true⟩] keys = (s, some []) := by
+    refine ⟨_, Prod.ext rfl ?_⟩
+    simpa [batchGetRun, sendBatch] using hok
+  obtain ⟨s, hs⟩ := hrun
+  have hb : batchGet m [⟨G, List.replicate (mkKeyBatches G (keys.map fun k => ((k, []) : Item))).length true⟩] keys =
+      some (keys.map (s.pairs.foldl (fun acc p => acc.insert p.1 p.2) OMap.empty).get, s.trace) := by
+    unfold batchGet; rw [hs]
+  exact ⟨s.trace, by rw [hb, ← batch_get_positional m _ keys _ _ hb]⟩
+
+theorem batch_put_total_no_region_error (m : Store) (G : Layout) (items : List Item) :
+    ∃ m' tr, batchPut m [⟨G, List.replicate (mkPutBatches G (lastWins items)).length true⟩] items = some (m', tr) ∧
+      ∀ k, m'.get k = (items.foldl (fun a it => a.insert it.1 it.2) m).get k := by
+  have hok := runBatches_all_ok (sendBatch mkPutBatches lastWins execPut 1) execPut
+    (mkPutBatches G (lastWins items)) (BState.init m) []
+  have hrun : ∃ s, batchPutRun m [⟨G, List.replicate (mkPutBatches G (lastWins items)).length true⟩] items = (s, some []) := by
+    refine ⟨_, Prod.ext rfl ?_⟩
+    simpa [batchPutRun, sendBatch] using hok
+  obtain ⟨s, hs⟩ := hrun
+  have hb : batchPut m [⟨G, List.replicate (mkPutBatches G (lastWins items)).length true⟩] items = some (s.store, s.trace) := by
+    unfold batchPut; rw [hs]
+  exact ⟨s.store, s.trace, hb, batch_put_last_wins m _ items _ _ hb⟩
+
+theorem batch_delete_total_no_region_error (m : Store) (G : Layout) (keys : List Bytes) :
+    ∃ m' tr, batchDelete m [⟨G, List.replicate (mkKeyBatches G (keys.map fun k => ((k, []) : Item))).length true⟩] keys = some (m', tr) ∧
+      ∀ k, m'.get k = if k ∈ keys then none else m.get k := by
+  have hok := runBatches_all_ok (sendBatch mkKeyBatches id execDelete 1) execDelete
+    (mkKeyBatches G (keys.map fun k => ((k, []) : Item))) (BState.init m) []
+  have hrun : ∃ s, batchDeleteRun m [⟨G, List.replicate (mkKeyBatches G (keys.map fun k => ((k, []) : Item))).length true⟩] keys = (s, some []) := by
+    refine ⟨_, Prod.ext rfl ?_⟩
+    simpa [batchDeleteRun, sendBatch] using hok
+  obtain ⟨s, hs⟩ := hrun
+  have hb : batchDelete m [⟨G, List.replicate (mkKeyBatches G (keys.map fun k => ((k, []) : Item))).length true⟩] keys = some (s.store, s.trace) := by
+    unfold batchDelete; rw [hs]
+  exact ⟨s.store, s.trace, hb, batch_delete_exact m _ keys _ _ hb⟩
+
+/-- Get / Put / Delete / CompareAndSwap complete as soon as one attempt is served (any number of region errors and
+    any layouts before it), and are atomic: one region request, the served one, is their linearisation point. -/
+theorem single_key_total (m : Store) (sc : SScript) (L : Layout) (hL : some L ∈ sc) (k v : Bytes) (prev : Option Bytes) :
+    RawKV.get m sc k = some (m.get k) ∧ put m sc k v = some (m.insert k v) ∧ delete m sc k = some (m.erase k) ∧
+    cas m sc k prev v = some (if m.get k = prev then m.insert k v else m, m.get k, decide (m.get k = prev)) := by
+  obtain ⟨L', hn⟩ := nextOk_of_mem sc L hL
+  refine ⟨?_, ?_, ?_, ?_⟩
+  · have : ∃ r, RawKV.get m sc k = some r := by simp [RawKV.get, hn]
+    obtain ⟨r, hr⟩ := this
+    rw [hr, get_eq m sc k r hr]
+  · have : ∃ r, put m sc k v = some r := by simp [put, hn]
+    obtain ⟨r, hr⟩ := this
+    rw [hr, put_eq m sc k v r hr]
+  · have : ∃ r, delete m sc k = some r := by simp [delete, hn]
+    obtain ⟨r, hr⟩ := this
+    rw [hr, delete_eq m sc k r hr]
+  · have : ∃ r, cas m sc k prev v = some r := by simp [cas, hn]
+    obtain ⟨⟨m', cur, sw⟩, hr⟩ := this
+    obtain ⟨h1, h2, h3⟩ := cas_eq m sc k prev v m' cur sw hr
+    rw [hr, h1, h3]
+    have : sw = decide (m.get k = prev) := by
+      by_cases hp : m.get k = prev
+      · simp [hp, h2.mpr hp]
+      · have : sw = false := by cases sw <;> simp_all
+        simp [hp, this]
+    rw [this]
+
 /-- the write calls keep the map sorted (so the hypotheses `m.Sorted` above hold along every op sequence) -/
 theorem writes_keep_sorted (m : Store) (hs : m.Sorted) :
     (∀ k v, (m.insert k v).Sorted) ∧ (∀ k, (m.erase k).Sorted) ∧ (∀ lo hi, (m.eraseRange lo hi).Sorted) :=
@@ -187,8 +334,9 @@ theorem checksum_terminates (m : Store) (L : Layout) (n : Nat) (hn : L.length < 
   checksumLoop_eventually_const_terminates m end_ L n hn pre start Checksum.zero []
 
 theorem delete_range_terminates (m : Store) (L : Layout) (n : Nat) (hn : L.length < n) (pre : SScript) (start end_ : Bytes) :
-    (deleteRange m (pre ++ List.replicate n (some L)) start end_).isSome = true :=
-  deleteRangeLoop_eventually_const_terminates end_ L n hn pre start m []
+    (deleteRange m (pre ++ List.replicate n (some L)) start end_).isSome = true := by
+  have := deleteRangeLoop_eventually_const_terminates end_ L n hn pre start m []
+  simp [deleteRange, deleteRangeRun, this]
 
 theorem reverse_scan_terminates (m : Store) (L : Layout) (n : Nat) (hn : L.length < n) (pre : SScript)
     (start end_ : Bytes) (limit : Nat) (keyOnly : Bool) :
@@ -308,5 +456,16 @@ example : ∃ tr, scan m0 ([some [[0x6c]], none, some [[0x6c], [0x6e]]] ++ List.
 example : ∃ tr, reverseScan m0 ([none, some [[0x6c]]] ++ List.replicate 3 (some [[0x6c], [0x6e]])) [0x7a] [] 2 false =
     some ([([0x70], [3]), ([0x6d], [2])], tr) :=
   reverse_scan_total m0 m0_sorted [[0x6c], [0x6e]] 3 (by decide) _ [0x7a] [] 2 false
+
+-- a BatchPut that does not complete (first batch served, second meets a region error, then the script ends): the
+-- store reached is a genuine intermediate one, which `batch_put_every_store_old_or_new` talks about
+example : (batchPutRun m0 [⟨[[0x6c]], [true, false]⟩] [([0x6b], [5]), ([0x70], [6])]).2 = none ∧
+    (batchPutRun m0 [⟨[[0x6c]], [true, false]⟩] [([0x6b], [5]), ([0x70], [6])]).1.store.get [0x6b] = some [5] ∧
+    (batchPutRun m0 [⟨[[0x6c]], [true, false]⟩] [([0x6b], [5]), ([0x70], [6])]).1.store.get [0x70] = some [3] := ⟨rfl, rfl, rfl⟩
+-- a DeleteRange that ends after its first partial request
+example : (deleteRangeRun m0 [some [[0x6c]]] [] []).2.2 = false ∧
+    (deleteRangeRun m0 [some [[0x6c]]] [] []).1.get [0x6b] = none ∧
+    (deleteRangeRun m0 [some [[0x6c]]] [] []).1.get [0x70] = some [3] := ⟨rfl, rfl, rfl⟩
+example : some [[0x6c]] ∈ ([none, some [[0x6c]], none] : SScript) := by simp
 
 end CGV.Props.C11
